@@ -46,6 +46,18 @@ def profile(tier):
     }
 
 
+def profile_xy(tier):
+    """XY programs with an SLM mask on two global microwave channels, delays before the first pulses:
+    the mask lasts until the end of the first pulse of the channel that starts first."""
+    p = profile(tier)
+    return dict(p, min_ops=6, max_ops=14, min_channels=2,
+                weights={"declare": 7, "declare_more": 3, "add": 10, "align": 1, "delay": 8,
+                         "phase_shift": 1, "target": 0, "eom": 0, "add_dmm": 0, "detmap": 0, "slm": 8},
+                device=gen.device_specs(mode="xy", n_channels=(2, 2), allow_builtin=True,
+                                        chan_kw={"bandwidth": [None, None, 8]}),
+                register=gen.register_specs(n=(2, 5)))
+
+
 def _a(x):
     return np.asarray(x.as_array(detach=True) if hasattr(x, "as_array") else x, dtype=float)
 
@@ -111,6 +123,9 @@ def check(case, ctx: Ctx):
         if c.is_dmm and len({round(v, 9) for v in c.weights.values()}) >= 2 and c.pulses:
             nt = True
             ctx.label("dmm_nonuniform")
+    if seq._in_xy and seq._slm_mask_targets and sum(1 for c in chans.values() if c.pulses) >= 1:
+        nt = True
+        ctx.label("xy_slm_mask")
     ctx.nontrivial(nt)
     T = max([c.T for c in chans.values()] or [0])
     # ---- (b) extension only pads
@@ -228,4 +243,7 @@ CLAUSES = [
     Clause("render", check, gen=lambda t: gen.programs(profile(t)),
            budget={"quick": (16, 120), "thorough": (16, 5000)},
            doc="C06.channel / C06.extend / C06.atom against the M4 renderer"),
+    Clause("render_xy_slm", check, gen=lambda t: gen.programs(profile_xy(t)),
+           budget={"quick": (16, 30), "thorough": (16, 1000)},
+           doc="the same for XY programs with an SLM mask and two global channels whose first pulses are delayed"),
 ]
